@@ -183,22 +183,29 @@ def getOutputFor (outputs : List (Int × OutData)) (time : Int) : OutData :=
   | some e => e.2
   | .none => []
 
-/-- `get_input_data(world, sim)` for `p` at its current step `c`; returns inputs and new state -/
-def getInputData (cfg : Cfg) (s : State) (p : Sid) (c : TT) : InputData × State :=
+/-- pulled inputs: for every cached connection the value of the newest cache entry that is due -/
+def pullInputs (cfg : Cfg) (s : State) (p : Sid) (c : TT) (inp : InputData) : InputData :=
+  (cfg.sim p).pulled.foldl (fun acc (e : Sid × TI × Port × Port) =>
+      let cache := getOutputFor (s.sims e.1).outputs ((TT.time c : Int) - (tier e.2.1.tiers 0 : Int))
+      let v : Val := (OutData.get? cache e.2.2.1).getD .none
+      InputData.set acc { eid := e.2.2.2.1, attr := e.2.2.2.2, ssid := e.1, seid := e.2.2.1.1 } v) inp
+
+/-- the step inputs of `p` at its current step `c` -/
+def stepInputs (cfg : Cfg) (s : State) (p : Sid) (c : TT) : InputData :=
   let x := s.sims p
   -- set_data inputs, then persistent memory for keys not set
   let inp0 := x.persistent.foldl (fun acc e => if InputData.has acc e.1 then acc else acc ++ [e]) x.setData
-  -- pushed inputs
-  let (inp1, buf) := bufferTake x.buffer (TT.time c) inp0
-  -- pulled inputs
-  let inp2 := (cfg.sim p).pulled.foldl (fun acc (e : Sid × TI × Port × Port) =>
-      let (src, delay, sport, dport) := e
-      let cache := getOutputFor (s.sims src).outputs ((TT.time c : Int) - (tier delay.tiers 0 : Int))
-      let v : Val := (OutData.get? cache sport).getD .none
-      InputData.set acc { eid := dport.1, attr := dport.2, ssid := src, seid := sport.1 } v) inp1
-  -- remember persistent values (existing keys only)
-  let pers := x.persistent.map fun e => match InputData.get? inp2 e.1 with | some v => (e.1, v) | .none => e
-  (inp2, s.upd p fun x => { x with setData := [], buffer := buf, persistent := pers })
+  -- pushed inputs, then pulled inputs
+  pullInputs cfg s p c (bufferTake x.buffer (TT.time c) inp0).1
+
+/-- `get_input_data(world, sim)` for `p` at its current step `c`; returns inputs and new state -/
+def getInputData (cfg : Cfg) (s : State) (p : Sid) (c : TT) : InputData × State :=
+  let inp := stepInputs cfg s p c
+  (inp, s.upd p fun x =>
+    { x with setData := [],
+             buffer := (bufferTake x.buffer (TT.time c) []).2,
+             -- remember persistent values (existing keys only)
+             persistent := x.persistent.map fun e => match InputData.get? inp e.1 with | some v => (e.1, v) | .none => e })
 
 /-- `get_max_advance(world, sim, until)` for `p` whose `cur = some c` has just been popped -/
 def maxAdvance (cfg : Cfg) (s : State) (p : Sid) (c : TT) : Nat :=
@@ -221,20 +228,25 @@ def prune (cfg : Cfg) (s : State) : State :=
 
 /-! ### the atomic blocks -/
 
+/-- `notify_dependencies(sim)`: schedule a step for every simulator triggered by the data of `p` -/
+def notify (cfg : Cfg) (s : State) (p : Sid) : State :=
+  (cfg.sim p).triggers.foldl (fun st (tr : Port × Sid × TI) =>
+      if OutData.has (s.sims p).data tr.1 then schedule st tr.2.1 (TI.act (s.sims p).outTime tr.2.2) else st) s
+
+/-- `advance_progress` for all simulators, in order; the first failing assert aborts -/
+def advanceAll (cfg : Cfg) (s : State) : State :=
+  (List.range cfg.n).foldl (fun st q => if st.failed.isSome then st else advance cfg st q) s
+
+/-- `current_step = None` -/
+def clearCur (s : State) (p : Sid) (c : TT) : State :=
+  (s.upd p fun x => { x with cur := .none }).emit (.finished p c)
+
 /-- what follows a completed step: `current_step = None`, `notify_dependencies`,
 `advance_progress` for every simulator, cache pruning, re-evaluation of the next step -/
 def finish (cfg : Cfg) (s : State) (p : Sid) (c : TT) : State :=
-  let s1 := (s.upd p fun x => { x with cur := .none }).emit (.finished p c)
-  let x := s1.sims p
-  -- notify_dependencies
-  let s2 := (cfg.sim p).triggers.foldl (fun st (tr : Port × Sid × TI) =>
-      if OutData.has x.data tr.1 then schedule st tr.2.1 (TI.act x.outTime tr.2.2) else st) s1
-  -- advance_progress for all simulators, in order; the first failing assert aborts
-  let s3 := (List.range cfg.n).foldl (fun st q => if st.failed.isSome then st else advance cfg st q) s2
+  let s3 := advanceAll cfg (notify cfg (clearCur s p c) p)
   if s3.failed.isSome then s3
-  else
-    let s4 := if cfg.useCache then prune cfg s3 else s3
-    settle cfg s4 p
+  else settle cfg (if cfg.useCache then prune cfg s3 else s3) p
 
 /-- `rt_check` -/
 def rtCheck (cfg : Cfg) (s : State) (p : Sid) (c : TT) : State :=
@@ -263,102 +275,148 @@ def asyncAllowed (cfg : Cfg) (p target : Sid) : Bool :=
 
 def zeroExt (t : Nat) (depth : Nat) : TT := t :: List.replicate (depth - 1) 0
 
-/-- one atomic block; `none` = not enabled -/
-def step (cfg : Cfg) (s : State) : Action → Option State
-  | .start p =>
-    if s.failed.isSome ∨ ¬ p < cfg.n ∨ (s.sims p).pc ≠ .init then .none
-    else
-      let s1 := advance cfg s p
-      if s1.failed.isSome then some s1 else some (settle cfg s1 p)
-  | .wake p =>
-    if s.failed.isSome ∨ ¬ p < cfg.n then .none
-    else match (s.sims p).pc with
-      | .awaitSettle a dl =>
-        let x := s.sims p
-        let timeout := match dl with | some d => decide (d ≤ s.clock) | .none => false
-        if a ≤ x.progress ∨ x.newer = true ∨ timeout = true then
-          let s1 := s.upd p fun x => { x with newer := false }
-          let s2 := if cfg.rt.isSome then advance cfg s1 p else s1
-          if s2.failed.isSome then some s2 else some (settle cfg s2 p)
-        else .none
-      | _ => .none
-  | .deps p =>
-    if s.failed.isSome ∨ ¬ p < cfg.n then .none
-    else match (s.sims p).pc with
-      | .waitDeps t =>
-        if depsReady cfg s p t then
-          match (s.sims p).next with
-          | [] => .none
-          | c :: rest =>
-            let s1 := s.upd p fun x => { x with cur := some c, next := rest }
-            if c ≠ (s.sims p).progress then some (s1.fail (.stepInPast p))
-            else if c.tail.any (fun k => decide (k ≥ cfg.maxLoop)) then some (s1.fail (.loop p))
-            else
-              let (inp, s2) := getInputData cfg s1 p c
-              let m := maxAdvance cfg s2 p c
-              some ((s2.upd p fun x => { x with pc := .inStep, begun := c :: x.begun }).emit (.begin p c inp m))
-        else .none
-      | _ => .none
-  | .setData p target entries =>
-    if s.failed.isSome ∨ ¬ p < cfg.n ∨ (s.sims p).pc ≠ .inStep then .none
-    else if !asyncAllowed cfg p target then some (s.fail (.asyncRefused p))
+/-- common guard: the run has not failed and `p` is a simulator -/
+def live (cfg : Cfg) (s : State) (p : Sid) : Bool := s.failed.isNone && decide (p < cfg.n)
+
+def stepStart (cfg : Cfg) (s : State) (p : Sid) : Option State :=
+  if live cfg s p && (s.sims p).pc == .init then
+    let s1 := advance cfg s p
+    if s1.failed.isSome then some s1 else some (settle cfg s1 p)
+  else .none
+
+/-- the `timeout=world.rt_factor` of `asyncio.wait` has expired -/
+def timedOut (dl : Option Nat) (clock : Nat) : Bool :=
+  match dl with
+  | some d => decide (d ≤ clock)
+  | .none => false
+
+def stepWake (cfg : Cfg) (s : State) (p : Sid) : Option State :=
+  if live cfg s p then
+    match (s.sims p).pc with
+    | .awaitSettle a dl =>
+      let x := s.sims p
+      if a ≤ x.progress ∨ x.newer = true ∨ timedOut dl s.clock = true then
+        let s1 := s.upd p fun x => { x with newer := false }
+        let s2 := if cfg.rt.isSome then advance cfg s1 p else s1
+        if s2.failed.isSome then some s2 else some (settle cfg s2 p)
+      else .none
+    | _ => .none
+  else .none
+
+/-- the part of `sim_process` between `wait_for_dependencies` and the `step` request -/
+def beginStep (cfg : Cfg) (s : State) (p : Sid) (c : TT) (rest : List TT) : State :=
+  let s1 := s.upd p fun x => { x with cur := some c, next := rest }
+  if c ≠ (s.sims p).progress then s1.fail (.stepInPast p)
+  else if c.tail.any (fun k => decide (k ≥ cfg.maxLoop)) then s1.fail (.loop p)
+  else
+    let (inp, s2) := getInputData cfg s1 p c
+    let m := maxAdvance cfg s2 p c
+    (s2.upd p fun x => { x with pc := .inStep, begun := c :: x.begun }).emit (.begin p c inp m)
+
+def stepDeps (cfg : Cfg) (s : State) (p : Sid) : Option State :=
+  if live cfg s p then
+    match (s.sims p).pc with
+    | .waitDeps t =>
+      if depsReady cfg s p t then
+        match (s.sims p).next with
+        | [] => .none
+        | c :: rest => some (beginStep cfg s p c rest)
+      else .none
+    | _ => .none
+  else .none
+
+def stepSetData (cfg : Cfg) (s : State) (p target : Sid) (entries : InputData) : Option State :=
+  if live cfg s p && (s.sims p).pc == .inStep then
+    if !asyncAllowed cfg p target then some (s.fail (.asyncRefused p))
     else some (s.upd target fun x => { x with setData := entries.foldl (fun acc e => InputData.set acc e.1 e.2) x.setData })
-  | .getDataReq p target =>
-    if s.failed.isSome ∨ ¬ p < cfg.n ∨ (s.sims p).pc ≠ .inStep then .none
-    else if !asyncAllowed cfg p target then some (s.fail (.asyncRefused p))
-    else some s
-  | .setEvent p t =>
-    if s.failed.isSome ∨ ¬ p < cfg.n then .none
-    else if cfg.rt.isNone then some (s.fail (.eventNotRt p))
+  else .none
+
+def stepGetDataReq (cfg : Cfg) (s : State) (p target : Sid) : Option State :=
+  if live cfg s p && (s.sims p).pc == .inStep then
+    if !asyncAllowed cfg p target then some (s.fail (.asyncRefused p)) else some s
+  else .none
+
+def stepSetEvent (cfg : Cfg) (s : State) (p : Sid) (t : Nat) : Option State :=
+  if live cfg s p then
+    if cfg.rt.isNone then some (s.fail (.eventNotRt p))
     else if t < cfg.until_ then some (schedule s p (ofWorld (cfg.sim p).depth t))
     else some (s.emit (.eventIgnored p))
-  | .stepReply p r =>
-    if s.failed.isSome ∨ ¬ p < cfg.n ∨ (s.sims p).pc ≠ .inStep then .none
-    else match (s.sims p).cur with
-      | .none => .none
-      | some c =>
-        let s1 := (s.upd p fun x => { x with last := some c }).emit (.stepped p c)
-        let bad (k : ReplyKind) : Option State := some (s1.fail (.badReply p k))
-        let cont (s2 : State) : Option State :=
-          let s3 := rtCheck cfg s2 p c
-          if s3.failed.isSome then some s3
-          else if (cfg.sim p).outReq.isEmpty then some (finish cfg s3 p c)
-          else some (s3.upd p fun x => { x with pc := .inGet })
-        match r with
-        | .bad => bad .notInt
-        | .int n =>
-          if n ≤ (TT.time c : Int) then bad .notLater
-          else if n < (cfg.until_ : Int) then cont (schedule s1 p (ofWorld (cfg.sim p).depth n.toNat))
-          else cont s1
-        | .none => if (cfg.sim p).ty = .timeBased then bad .noNextStep else cont s1
-  | .dataReply p d =>
-    if s.failed.isSome ∨ ¬ p < cfg.n ∨ (s.sims p).pc ≠ .inGet then .none
-    else match (s.sims p).cur with
-      | .none => .none
-      | some c =>
-        let ot : Int := d.time.getD (TT.time c : Int)      -- last_step = current_step here
-        let outTT : TT := if ot = (TT.time c : Int) then c else zeroExt ot.toNat c.length
-        let s1 := (s.upd p fun x => { x with outTime := outTT }).emit (.got p c outTT d.data)
-        if (TT.time c : Int) > ot then some (s1.fail (.badReply p .outputTimeEarly))
-        else
-          -- cache
-          let s2 := if cfg.useCache then s1.upd p fun x =>
-              { x with outputs := if x.outputs.any (·.1 == ot) then x.outputs.map (fun e => if e.1 == ot then (ot, d.data) else e)
-                                  else x.outputs ++ [(ot, d.data)] }
-            else s1
-          -- push
-          let s3 := (cfg.sim p).push.foldl (fun st (e : Port × Sid × TI × Port) =>
-              let (sport, dst, shift, dport) := e
-              match OutData.get? d.data sport with
-              | .none => st
-              | some v => st.upd dst fun y =>
-                  { y with buffer := insertBuf { time := ot.toNat + tier shift.tiers 0, ctr := y.ctr,
-                                                 key := { eid := dport.1, attr := dport.2, ssid := p, seid := sport.1 }, val := v } y.buffer,
-                           ctr := y.ctr + 1 }) s2
-          let s4 := s3.upd p fun x => { x with data := d.data }
-          some (finish cfg s4 p c)
-  | .tick n =>
-    if s.failed.isSome ∨ cfg.rt.isNone then .none else some { s with clock := s.clock + n }
+  else .none
+
+/-- after a valid `step` reply: `rt_check`, then `get_data` if any output is requested -/
+def afterStep (cfg : Cfg) (s2 : State) (p : Sid) (c : TT) : State :=
+  let s3 := rtCheck cfg s2 p c
+  if s3.failed.isSome then s3
+  else if (cfg.sim p).outReq.isEmpty then finish cfg s3 p c
+  else s3.upd p fun x => { x with pc := .inGet }
+
+/-- validation of the `step` reply (scheduler.step after the await) -/
+def processStepReply (cfg : Cfg) (s : State) (p : Sid) (c : TT) (r : StepReply) : State :=
+  let s1 := (s.upd p fun x => { x with last := some c }).emit (.stepped p c)
+  match r with
+  | .bad => s1.fail (.badReply p .notInt)
+  | .int n =>
+    if n ≤ (TT.time c : Int) then s1.fail (.badReply p .notLater)
+    else if n < (cfg.until_ : Int) then afterStep cfg (schedule s1 p (ofWorld (cfg.sim p).depth n.toNat)) p c
+    else afterStep cfg s1 p c
+  | .none => if (cfg.sim p).ty = .timeBased then s1.fail (.badReply p .noNextStep) else afterStep cfg s1 p c
+
+def stepStepReply (cfg : Cfg) (s : State) (p : Sid) (r : StepReply) : Option State :=
+  if live cfg s p && (s.sims p).pc == .inStep then
+    match (s.sims p).cur with
+    | .none => .none
+    | some c => some (processStepReply cfg s p c r)
+  else .none
+
+/-- output time of a `get_data` reply as a tiered time -/
+def outTimeOf (c : TT) (d : DataReply) : Int × TT :=
+  let ot : Int := d.time.getD (TT.time c : Int)      -- last_step = current_step here
+  (ot, if ot = (TT.time c : Int) then c else zeroExt ot.toNat c.length)
+
+/-- cache filling and pushing of `get_outputs` -/
+def storeOutputs (cfg : Cfg) (s1 : State) (p : Sid) (ot : Int) (d : DataReply) : State :=
+  let s2 := if cfg.useCache then s1.upd p fun x =>
+      { x with outputs := if x.outputs.any (·.1 == ot) then x.outputs.map (fun e => if e.1 == ot then (ot, d.data) else e)
+                          else x.outputs ++ [(ot, d.data)] }
+    else s1
+  let s3 := (cfg.sim p).push.foldl (fun st (e : Port × Sid × TI × Port) =>
+      let (sport, dst, shift, dport) := e
+      match OutData.get? d.data sport with
+      | .none => st
+      | some v => st.upd dst fun y =>
+          { y with buffer := insertBuf { time := ot.toNat + tier shift.tiers 0, ctr := y.ctr,
+                                         key := { eid := dport.1, attr := dport.2, ssid := p, seid := sport.1 }, val := v } y.buffer,
+                   ctr := y.ctr + 1 }) s2
+  s3.upd p fun x => { x with data := d.data }
+
+/-- `get_outputs` after the await, and the rest of the loop body -/
+def processDataReply (cfg : Cfg) (s : State) (p : Sid) (c : TT) (d : DataReply) : State :=
+  let (ot, outTT) := outTimeOf c d
+  let s1 := (s.upd p fun x => { x with outTime := outTT }).emit (.got p c outTT d.data)
+  if (TT.time c : Int) > ot then s1.fail (.badReply p .outputTimeEarly)
+  else finish cfg (storeOutputs cfg s1 p ot d) p c
+
+def stepDataReply (cfg : Cfg) (s : State) (p : Sid) (d : DataReply) : Option State :=
+  if live cfg s p && (s.sims p).pc == .inGet then
+    match (s.sims p).cur with
+    | .none => .none
+    | some c => some (processDataReply cfg s p c d)
+  else .none
+
+def stepTick (cfg : Cfg) (s : State) (n : Nat) : Option State :=
+  if s.failed.isSome ∨ cfg.rt.isNone then .none else some { s with clock := s.clock + n }
+
+/-- one atomic block; `none` = not enabled -/
+def step (cfg : Cfg) (s : State) : Action → Option State
+  | .start p => stepStart cfg s p
+  | .wake p => stepWake cfg s p
+  | .deps p => stepDeps cfg s p
+  | .setData p target entries => stepSetData cfg s p target entries
+  | .getDataReq p target => stepGetDataReq cfg s p target
+  | .setEvent p t => stepSetEvent cfg s p t
+  | .stepReply p r => stepStepReply cfg s p r
+  | .dataReply p d => stepDataReply cfg s p d
+  | .tick n => stepTick cfg s n
 
 /-- run a list of actions; `none` if one of them is not enabled -/
 def exec (cfg : Cfg) : State → List Action → Option State
